@@ -84,13 +84,19 @@ def gen_sunearth(seed, shard, n):
                 forms.append(-999.0)
         ref = float(C.mean_obliquity(Epoch(yy, mm, dd)))
         if 1 <= yy <= 9999 and dd == int(dd):
-            forms.append(float(C.mean_obliquity(datetime.date(yy, mm, int(dd)))))
+            try:
+                forms.append(float(C.mean_obliquity(datetime.date(yy, mm, int(dd)))))
+            except ValueError:
+                pass            # a Julian leap day the proleptic Gregorian date type does not have
         hh, mi, ss = rng.randrange(24), rng.randrange(60), rng.uniform(0, 59)
         sums = []
         tforms = [(yy, mm, dd), (yy, mm, int(dd), hh, mi, ss), ((yy, mm, int(dd), hh, mi, ss),), ([yy, mm, int(dd), hh, mi, ss],),
                   (Epoch(yy, mm, int(dd), hh, mi, ss),)]
         if 1 <= yy <= 9999:
-            tforms.append((datetime.datetime(yy, mm, int(dd), hh, mi, int(ss)),))
+            try:
+                tforms.append((datetime.datetime(yy, mm, int(dd), hh, mi, int(ss)),))
+            except ValueError:
+                pass            # a Julian leap day the proleptic Gregorian datetime does not have
         for args in tforms:
             try:
                 sums.append([fx(float(C.mean_obliquity(*args))), fx(float(C.nutation_obliquity(*args))), fx(float(C.true_obliquity(*args)))])
